@@ -32,19 +32,19 @@ CHECKS = {
  "C08": (True, "plain+sched", "exploration", "property-based testing with an identity ledger (destructor counting per element)",
          "Consuming kinds with destructor-counting elements (24-byte and zero-sized); histories ending in drop or into_seq_iter at every progress class; each element must be dropped exactly once and have at most one owner.", "DESIGN §4 C08", TRUST_SEQ),
  "C09": (True, "sched", "exploration", "property-based testing over generated schedules with a logical spin/hang detector and thread freezing (adversarial scheduler) for known-size kinds",
-         "Hang = reachable state in which every unfinished thread spins on unchanged memory (confirmed); lock-freedom = one thread suspended forever at a generated yield point, the others must finish without any spin episode.", "DESIGN §4 C09", TRUST + " Liveness is decided on the explored schedules only."),
+         "Hang = reachable state in which every unfinished thread spins on unchanged memory (confirmed); lock-freedom = one thread suspended forever at a generated yield point, the others must finish without any spin episode; threads also stop pulling by injected panics (wrapped iterator, closure, destructor of an element left in a chunk buffer).", "DESIGN §4 C09", TRUST + " Liveness is decided on the explored schedules only."),
  "C10": (True, "plain+sched", "exploration", "property-based testing, model-based remainder oracle",
          "All kinds, histories incl. overshoot / buffered / skip, then into_seq_iter; remainder compared with the undelivered suffix by value, identity and address.", "DESIGN §4 C10", TRUST_SEQ),
  "C11": (True, "sched", "exploration", "property-based testing: model-based length oracle at every quiescent point (E2) and real-time monotonicity/definitiveness oracle for racing queries (E1)",
-         "try_get_len/has_more compared with the cursor model after every sequential prefix; racing queries checked for non-increase and for 'No is definitive'.", "DESIGN §4 C11", TRUST),
+         "try_get_len/has_more compared with the cursor model after every sequential prefix; racing queries checked for non-increase and for 'No is definitive'; nested iterators (inner.values().into_con_iter() with side pulls on the inner iterator) queried at the final quiescent point and drained.", "DESIGN §4 C11", TRUST),
  "C12": (True, "sched", "exploration", "property-based testing over generated schedules, per-element invocation multiset + fold homomorphism oracle",
          "Threads with different chunk sizes (1 and >1) call for_each/enumerate_for_each/fold; closure invocations recorded per element.", "DESIGN §4 C12", TRUST),
  "C18": (True, "sched", "fault_enumeration", "fault injection (panic at the k-th probe next / clone / closure invocation) under generated schedules, hang + duplicate + ledger oracles",
          "Crash point k enumerated over 0..len+1 by the generator for three fault sites, under generated schedules.", "DESIGN §4 C18", TRUST),
  "C15": (True, "plain+sched", "exploration", "property-based testing with a gated counting global allocator (allocation-balance oracle): sequential, after real-thread concurrent use, and under generated schedules on the schedule engine",
          "Whole cases (construction, operations, terminal, dropping everything) run inside a per-thread allocation gate, twice; balance of bytes and blocks must be exactly zero.", "DESIGN §4 C15", TRUST_SEQ + " Only allocations through the global allocator are visible."),
- "C16": (True, "plain", "exploration", "exhaustive enumeration of the boundary grid plus generated neighbours, u128 reference-model oracle, differential execution in both overflow modes",
-         "The quantifier's grid (extreme ranges x chunk sizes x tails) is enumerated completely and judged by the mathematical cursor model in-process and in two separately compiled processes (overflow checks on/off).", "DESIGN §4 C16", TRUST_SEQ),
+ "C16": (True, "plain+sched", "exploration", "exhaustive enumeration of the boundary grid plus generated neighbours, u128 reference-model oracle, differential execution in both overflow modes; generated collections of zero-sized elements with lengths up to usize::MAX; property-based testing over generated schedules with racing boundary chunk sizes (usize::MAX / k)",
+         "The quantifier's grid (extreme ranges x chunk sizes x tails) is enumerated completely and judged by the mathematical cursor model in-process and in two separately compiled processes (overflow checks on/off); slices / vectors of () longer than isize::MAX; on the schedule engine 2-4 threads pull chunks of sizes MAX, MAX/2, MAX/3, MAX/4, 2^62 concurrently (one-cursor model in u128).", "DESIGN §4 C16", TRUST),
  "C17": (True, "plain", "exploration", "differential testing of two compilations (debug-assertions+overflow-checks on/off) over generated histories; std ub_checks as precondition oracle",
          "The same generated histories are executed by twin processes built from the same sources; transcripts must be identical; an abort in one twin is a violation.", "DESIGN §4 C17", TRUST_SEQ),
  "C13": (True, "plain+sched", "exploration", "differential (lock-step) property-based testing: adaptor vs underlying iterator under the same generated operation lists (E2) and the same generated schedules (E1)",
@@ -52,7 +52,7 @@ CHECKS = {
  "C14": (True, "plain", "exploration", "generated client programs judged by rustc (negative programs paired with compiling twins) + property-based testing of safe low-level call sequences with an identity ledger",
          "A finite grammar of programs (constructors x element types x usages, borrow probes, user-defined AtomicIter implementors behind the adaptors) is compiled against the crate; rejection with the expected error class is the oracle. Sequences of safe public calls are searched for two owners of one element.", "DESIGN §4 C14", "Trusted base: rustc's verdict, the program grammar and the reference rule derived from the property text; a finite family of programs, not all safe programs. Two known findings (D9, D10) are reported as KNOWN-FINDING and excluded by construction."),
  "C19": (True, "plain", "exploration", "model-based property-based testing with several iterators and clones over one collection (one cursor model per iterator, address identity, source ledger)",
-         "Interleaved histories of new-iterator / clone / pull / skip / query operations over slices, Vecs, arrays and ranges.", "DESIGN §4 C19", TRUST_SEQ),
+         "Interleaved histories of new-iterator / clone / pull / skip / query operations over slices, Vecs, arrays and ranges; the same over &[()] / &Vec<()> of lengths up to usize::MAX.", "DESIGN §4 C19", TRUST_SEQ),
 }
 
 NOT_YET = {
